@@ -4,6 +4,13 @@
 use std::io::{BufRead, Write};
 use std::panic::{catch_unwind, AssertUnwindSafe};
 
+mod area_gc;
+mod area_lv;
+mod area_mac;
+mod area_misc;
+mod area_num;
+mod area_str;
+mod area_vm;
 mod text;
 use text::*;
 
@@ -18,6 +25,13 @@ fn run_case(c: &[String]) -> String {
         3 => text::highlight_check_case(c[1].parse().unwrap(), &cps(&c[2..])),
         4 => text::parse_text_case(&cps(&c[1..])),
         5 => text::parse_all_case(&cps(&c[1..])),
+        10..=29 => area_num::run(c),
+        30..=39 => area_str::run(c),
+        40..=49 => area_lv::run(c),
+        50..=59 => area_mac::run(c),
+        60..=69 => area_gc::run(c),
+        70..=99 => area_vm::run(c),
+        100..=119 => area_misc::run(c),
         _ => "BADCASE".into(),
     }
 }
